@@ -85,7 +85,8 @@ def new_run():
          "tightening in a way the data satisfies (nullable=False, required=True, "
          "unique=True on distinct values), replace checks by checks the data "
          "satisfies, or change int -> float with astype on the frame",
-         "joint unique= / groupby references to touched columns are not judged",
+         "joint unique= naming a renamed column must follow the rename (RENAME-JOINT); joint unique= "
+         "after remove / select of a listed column and groupby references to touched columns are not judged",
          "where reset_index inserts the former levels among the column keys is "
          "judged only through MIRROR on ordered=True schemas (pandas prepends)",
          "MultiIndex(coerce=True) dissolved into a single Index by reset_index: "
@@ -233,6 +234,8 @@ def classify(kind, step, w, spec):
     multi = w.get("index_kind") == "multiindex"
     if kind == "receiver-changed" and m in ("update_checks", "set_checks"):
         return K_SHALLOW
+    if kind == "joint-unique-not-renamed-with-its-column" and m == "rename_columns":
+        return "rename_columns-leaves-old-names-in-joint-unique"
     if step.get("what") == "update_columns_falsy_name" and (
             (kind == "invalid-request-returned-a-schema"
              and w.get("returned", "").endswith("DataFrameSchema"))
@@ -408,10 +411,22 @@ class Case:
         run.count("KEEP:evaluated")
         if P.is_empty_request(step):
             run.count(f"KEEP:empty_request:{m}")
-        d = F.diff(top_of(fa), top_of(fb))
+        ta, tb = top_of(fa), top_of(fb)
+        if m == "rename_columns" and isinstance(ta.get("_unique"), list):
+            # joint uniqueness names its columns: the frame operation renames the
+            # column, so the same columns stay jointly unique under their new names
+            # (RENAME-JOINT; the fingerprint holds the names as they are stored)
+            mp_u = dict(step["map"])
+            want = [mp_u.get(x, x) if not isinstance(x, list) else x for x in ta["_unique"]]
+            run.count("KEEP:rename:joint_unique_present")
+            if want != ta["_unique"]:
+                run.count("KEEP:rename:joint_unique_names_a_renamed_column")
+            ta = dict(ta, _unique=want)
+        d = F.diff(ta, tb)
         if d:
-            self.viol("untouched-attribute-changed", step, {"where": "schema", "diff": d},
-                      attr=diff_attr(d))
+            self.viol("untouched-attribute-changed" if not (m == "rename_columns" and "_unique" in d)
+                      else "joint-unique-not-renamed-with-its-column", step,
+                      {"where": "schema", "diff": d}, attr=diff_attr(d))
         ca, cb = cols_of(fa), cols_of(fb)
         ka, kb = keys_of(fa), keys_of(fb)
         named = {}
@@ -1036,6 +1051,7 @@ def finalize(run, ctx):
                     ("KEEP:empty_request:add_columns", 2),
                     ("KEEP:empty_request:remove_columns", 2),
                     ("KEEP:empty_request:rename_columns", 2),
+                    ("KEEP:rename:joint_unique_names_a_renamed_column", 8),
                     ("KEEP:empty_request:update_column", 4),
                     ("KEEP:empty_request:update_columns", 4),
                     ("INVERSE:reset-after-set", 70), ("INVERSE:select-all", 250),
